@@ -975,6 +975,7 @@ def bind_new_parameters(modules) -> int:
     # 2. every call by that name in the package passes the default (or forwards an own new parameter with the same default)
     ok = {(id(c[0]), c[2]): True for c in cands}
     sites = []
+    forwards = []
     for modname, m in modules.items():
         for fn_ in [n for n in ast.walk(m.tree) if isinstance(n, ast.FunctionDef)] + [m.tree]:
             own = new_params_of.get(id(fn_), {})
@@ -996,6 +997,15 @@ def bind_new_parameters(modules) -> int:
                             ok[(id(fn), pn)] = False
                         else:
                             sites.append((c, cand))
+                            if not ast.dump(v) == ast.dump(d):
+                                forwards.append(((id(fn), pn), (id(fn_), v.id)))      # bound only if the forwarded parameter is
+    changed = True
+    while changed:
+        changed = False
+        for tgt, src in forwards:
+            if ok.get(tgt) and not ok.get(src, False):
+                ok[tgt] = False
+                changed = True
     n = 0
     for fn, qual, pn, d, posn in cands:
         if not ok[(id(fn), pn)]:
